@@ -46,6 +46,7 @@ def main(tier):
     chk.rule("SAMEHT", "the pools' checkpoints are established under the same tests", floor=2)
     chk.rule("POSN", "a newly observed tree position replaces the stored one", floor=2)
     chk.rule("SHARD", "only put_shard replaces the contents of an existing shard", floor=3)
+    chk.rule("KEEP", "checkpoints created while scanning are registered with the retention policy", floor=4)
     chk.rule("control", "positive controls", floor=1)
     ps_rules.ps1(chk, FILES)
     ps_rules.ps2(chk, FILES)
@@ -74,6 +75,7 @@ def main(tier):
     same_heights(chk, w)
     posn(chk, w)
     shard_writers(chk, w)
+    retained_boundaries(chk, w)
     chk.finish()
 
 
@@ -275,6 +277,144 @@ def shard_writers(chk, w):
         chk.ok("SHARD", "put_shard serialises the root of the subtree it was handed (one write_shard call)")
     else:
         chk.fail("SHARD", "put_shard/source", "put_shard does not serialise its own subtree argument", f.span.loc())
+
+
+def retained_boundaries(chk, w):
+    """KEEP: "every anchor-retention boundary inside the scanned range has a checkpoint that survives
+    ordinary pruning" - the structural half, on update_tree (the one place scanning creates checkpoints):
+      pair   every checkpoint-creating call (insert_frontier with Retention::Checkpoint{id}, insert_tree
+             with its checkpoint map, add_checkpoint(h)) is paired with retain_anchor_checkpoint for the
+             same height(s) and the caller's policy; for insert_tree the registration comes FIRST
+             (insertion prunes);
+      helper retain_anchor_checkpoint calls ensure_retained(height) exactly when the policy retains it;
+      guard  adding a checkpoint for a height the pool is missing is not subject to a test on the tree's
+             pruning state: such a test is false for old heights whether or not the policy retains them,
+             so a boundary deep inside a long batch would get no checkpoint."""
+    import guards
+
+    class Deep(defuse.DefUse):
+        MAXD = 60
+    try:
+        f = w.fn("zcash_client_backend::data_api::ll::wallet::update_tree")
+        h = w.fn("zcash_client_backend::data_api::ll::wallet::retain_anchor_checkpoint")
+        sr = w.fn("zcash_client_backend::data_api::ll::wallet::should_retain_anchor")
+    except KeyError as e:
+        chk.fail("KEEP", "missing", "update_tree / retain_anchor_checkpoint / should_retain_anchor not found: %s" % e)
+        return
+    b = f.body
+    du = Deep(b)
+    try:
+        pol = f.argnames.index("anchor_retention")
+    except ValueError:
+        chk.fail("KEEP", "param", "update_tree has no anchor_retention parameter", f.span.loc())
+        return
+    sites = {"insert_frontier": [], "insert_tree": [], "add_checkpoint": [], "retain_anchor_checkpoint": []}
+    for bb, t in b.calls():
+        if b.blocks[bb].cleanup or t.callee.indirect is not None:
+            continue
+        m = re.search(r"::(insert_frontier|insert_tree|add_checkpoint|retain_anchor_checkpoint)(::<.*>)?$", t.callee.target_p())
+        if m:
+            sites[m.group(1)].append((bb, t))
+    retains = []
+    for bb, t in sites["retain_anchor_checkpoint"]:
+        if defuse.strip_refs(du.origin(t.args[1])) != ("arg", pol):
+            chk.fail("KEEP", "update_tree/policy", "retain_anchor_checkpoint is given %s, not the caller's policy"
+                     % defuse.show(du.origin(t.args[1]))[:60], t.span.loc())
+        retains.append((bb, defuse.strip_refs(du.origin(t.args[2]))))
+
+    def only_error_exits(frm, to):
+        """`to` is reached from `frm` under `?` continuations only"""
+        extra = [c for c in guards.edge_conditions(b, to) if c not in guards.edge_conditions(b, frm)
+                 and not b.blocks[c[0]].term.span.has_macro("desugar:QuestionMark")]
+        return b.dominates(frm, to) and not extra
+    n = 0
+    for bb, t in sites["insert_frontier"]:
+        o = du.origin(t.args[2])
+        hid = defuse.strip_refs(o[2][0]) if o[0] == "agg" and o[1].endswith("Retention::Checkpoint") and o[2] else None
+        n += 1
+        if hid is not None and any(hh == hid and only_error_exits(bb, rb) for rb, hh in retains):
+            chk.ok("KEEP", "update_tree: the frontier checkpoint's height is registered with the retention policy", sample=True)
+        else:
+            chk.fail("KEEP", "update_tree/pair/insert_frontier", "the checkpoint created by insert_frontier (%s) is not "
+                     "followed by retain_anchor_checkpoint for the same height" % defuse.show(o)[:80], t.span.loc())
+    for bb, t in sites["add_checkpoint"]:
+        hid = defuse.strip_refs(du.origin(t.args[1]))
+        n += 1
+        if any(hh == hid and only_error_exits(bb, rb) for rb, hh in retains):
+            chk.ok("KEEP", "update_tree: a checkpoint added for a missing height is registered with the retention policy",
+                   sample=True)
+        else:
+            chk.fail("KEEP", "update_tree/pair/add_checkpoint", "add_checkpoint(%s) is not followed by "
+                     "retain_anchor_checkpoint for the same height" % defuse.show(hid)[:60], t.span.loc())
+        # guard: tests between the loop over the missing heights and the insertion
+        for sw, v, _tb in guards.edge_conditions(b, bb):
+            tm = b.blocks[sw].term
+            if tm.span.macros or tm.discr is None or tm.discr.kind not in ("copy", "move"):
+                continue
+            o = du.origin(tm.discr)
+            txt = defuse.show(o)
+            names = sorted(set(re.findall(r"\b([a-z_][a-z_0-9]*)\(", txt)) - {"branch", "map_err", "expect", "next",
+                                                                              "into_iter", "store", "deref"})
+            state = [x for x in names if re.search(r"checkpoint|store|prun|min_|max_", x)]
+            policy = "retains" in names or "should_retain_anchor" in names
+            if state and not policy:
+                chk.fail("KEEP", "update_tree/guard/%s" % "+".join(names), "a checkpoint for a height this pool is missing "
+                         "is added only under `%s` (edge value %s): a test on the tree's checkpoint state that holds "
+                         "or fails regardless of whether the policy retains the height, so a retained boundary old "
+                         "enough inside a long batch gets no checkpoint in this pool" % (txt[:120], v), tm.span.loc())
+            else:
+                chk.ok("KEEP", "update_tree: the test `%s` on adding a missing checkpoint does not depend on the tree's "
+                       "pruning state alone" % txt[:60])
+    for bb, t in sites["insert_tree"]:
+        cps = defuse.strip_refs(du.origin(t.args[2]))
+        n += 1
+        # a loop over the keys of the same map, each key registered, dominating the insertion
+        good = False
+        for rb, hh in retains:
+            txt = defuse.show(hh)
+            if "keys(" in txt and defuse.show(cps) in txt and b.dominates(rb, bb) is False and rb in b.reachable(0):
+                # the registration loop's header dominates the insertion; its body does not
+                hdr = [sw for sw, _v, _tb in guards.edge_conditions(b, rb) if b.blocks[sw].term.span.has_macro("desugar:ForLoop")]
+                good = any(b.dominates(x, bb) for x in hdr)
+        if good:
+            chk.ok("KEEP", "update_tree: every key of the checkpoint map handed to insert_tree is registered with the "
+                   "policy in a loop that completes before the insertion", sample=True)
+        else:
+            chk.fail("KEEP", "update_tree/pair/insert_tree", "the heights of the checkpoint map given to insert_tree are "
+                     "not registered with the retention policy before the insertion (which prunes)", t.span.loc())
+    if n < 3:
+        chk.fail("KEEP", "update_tree/sites", "expected insert_frontier, insert_tree and add_checkpoint in update_tree, "
+                 "found %d checkpoint-creating call(s)" % n, f.span.loc())
+    # the helper
+    hb = h.body
+    hdu = Deep(hb)
+    er = [(bb, t) for bb, t in hb.calls() if t.callee.indirect is None and re.search(r"::ensure_retained(::<.*>)?$", t.callee.target_p())]
+    good = False
+    if len(er) == 1 and defuse.strip_refs(hdu.origin(er[0][1].args[1])) == ("arg", 2):
+        for sw, v, _tb in guards.edge_conditions(hb, er[0][0]):
+            tm = hb.blocks[sw].term
+            if tm.discr is None or tm.discr.kind not in ("copy", "move") or guards.truth(tm, v) is not True:
+                continue
+            o = hdu.origin(tm.discr)
+            if o[0] == "call" and o[1].endswith("should_retain_anchor") and \
+                    [defuse.strip_refs(x) for x in o[2]] == [("arg", 1), ("arg", 2)]:
+                good = True
+    sdu = Deep(sr.body)
+    so = sdu.origin_local(0)
+    inner = None
+    if so[0] == "call" and so[1].endswith("::is_some_and") and defuse.strip_refs(so[2][0]) == ("arg", 0):
+        cl = so[2][1]
+        if cl[0] == "agg" and cl[1].startswith("closure:"):
+            g = next((x for x in w.fns.values() if x.id == cl[1][8:] or x.p == cl[1][8:]), None)
+            if g is not None:
+                calls = [t for _bb, t in g.body.calls() if t.callee.indirect is None]
+                inner = [t.callee.target_p().rsplit("::", 1)[-1] for t in calls]
+    if good and inner == ["retains"]:
+        chk.ok("KEEP", "retain_anchor_checkpoint: ensure_retained(height) runs exactly under should_retain_anchor(policy, "
+               "height) = policy.is_some_and(|p| p.retains(height))", sample=True)
+    else:
+        chk.fail("KEEP", "retain_anchor_checkpoint/shape", "retain_anchor_checkpoint no longer calls ensure_retained(height) "
+                 "exactly when the policy retains the height (helper calls: %s)" % inner, h.span.loc())
 
 
 def bind(chk, w, pb):
